@@ -179,6 +179,11 @@ def main(argv=None):
             if confirmed and confirmed.get('confirmed'):
                 rp = write_replay(pid, r['name'], payload)
                 violations.append((r['name'], rp, ''))
+            elif '/post:chosen-call:' in r['name']:
+                # the clause pins the constructor call the printer chose; the property asks only for SOME call that rebuilds an equal
+                # object: without a failing input from the replay a different call is not a violation
+                undecided.append((r['name'], 'the printer emits another call than the contract pins; the replay on real values found no value that '
+                                             'is not rebuilt: ' + str((confirmed or {}).get('detail', ''))[:160]))
             elif in_base:
                 rp = write_replay(pid, r['name'], payload)
                 violations.append((r['name'], rp, ' no-failing-input-found'))
